@@ -12,6 +12,7 @@
 # You should have received a copy of the GNU Lesser General Public
 # License along with this library.  If not, see <http://www.gnu.org/licenses/>.
 
+import builtins
 import collections
 import math
 import pathlib
@@ -349,6 +350,8 @@ class SpaceTranslator(ParentTranslator):
 
     class _c_{name}(_mx_sys.BaseSpace):
 
+    {builtin_params}
+
         def __init__(self, parent):
 
             # modelx variables
@@ -481,13 +484,22 @@ class SpaceTranslator(ParentTranslator):
         lines = []
         names = [k for k in space.refs if k[0] != '_']
         names.extend(k for k in space.spaces if k[0] != '_')
+        params = []
         parent = space
         while isinstance(parent, BaseSpace):
             if parent.parameters:
-                names.extend(parent.parameters)
+                params.extend(parent.parameters)
             parent = parent.parent
+        names.extend(params)
         for k in dict.fromkeys(names):
             lines.append(k + ' = None')
+
+        # Parameters have values in ItemSpaces only. Where they have none,
+        # a name of a built-in denotes the built-in, as in modelx
+        builtin_params = [
+            k + ' = ' + k for k in dict.fromkeys(params)
+            if hasattr(builtins, k) and k not in space.cells
+            and k not in space.refs and k not in space.spaces]
 
         for k, v in space.cells.items():
             src = v.formula.source
@@ -563,6 +575,7 @@ class SpaceTranslator(ParentTranslator):
 
         return self.class_template.format(
             name=space.name,
+            builtin_params=textwrap.indent("\n".join(builtin_params), ' ' * 4),
             cells_name_list=textwrap.indent(self.cells_name_list(space), ' ' * 4),
             space_assigns=textwrap.indent(self.space_assigns(space), ' ' * 8),
             space_dict=textwrap.indent(self.space_dict(space), ' ' * 8),
